@@ -8,6 +8,7 @@ import Driver.Gsm7Ops
 import Driver.CombinerOps
 import Driver.CodingOps
 import Driver.SplitOps
+import Driver.SmsOps
 
 open Driver
 
@@ -32,7 +33,10 @@ def step (line : String) : String :=
             | none =>
               match splitOp op args with
               | some r => r
-              | none => "bad-op"
+              | none =>
+                match smsOp op args with
+                | some r => r
+                | none => "bad-op"
 
 partial def loop (h : IO.FS.Stream) (out : IO.FS.Stream) : IO Unit := do
   let line ← h.getLine
